@@ -157,6 +157,64 @@ pub fn spaces(tier: Tier) -> Vec<Space<'static>> {
         }
         acc.sample(|| json!({"a": format!("{:?}", a), "b": format!("{:?}", v2[(i * 5 + 1) % n])}));
     }));
+    // the same operands in four forms: the model encoder's bytes, the bytes jsonb's own encoder
+    // produces for the parsed text, the JSON text, and the text with every string spelled in \u escapes
+    {
+        let al: Vec<RVal> = vec![
+            RVal::u(0), RVal::u(1), RVal::f(1.0), RVal::i(-1), RVal::f(0.0), RVal::s("a"), RVal::s("\u{20000}"), RVal::s("\u{10FFFF}"), RVal::s("💎"), RVal::s(""), RVal::Null,
+            RVal::arr(vec![RVal::u(0)]), RVal::arr(vec![RVal::f(1.0)]), RVal::obj(vec![("a", RVal::u(0))]), RVal::obj(vec![("\u{20000}", RVal::s("\u{30000}"))]),
+        ];
+        let mut docs: Vec<RVal> = vec![RVal::Arr(vec![])];
+        for x in &al {
+            docs.push(x.clone());
+            docs.push(RVal::Arr(vec![x.clone()]));
+            for y in &al {
+                docs.push(RVal::Arr(vec![x.clone(), y.clone()]));
+            }
+        }
+        let forms: Arc<Vec<(RVal, Vec<Vec<u8>>)>> = Arc::new(
+            docs.into_iter()
+                .map(|d| {
+                    let text = refmodel::text::print(&d).into_bytes();
+                    let own = guard(|| jsonb::parse_value(&text).map(|v| v.to_vec())).ok().and_then(|r| r.ok()).unwrap_or_default();
+                    let mut esc = String::new();
+                    crate::checks::c11::escaped_text(&d, &mut esc);
+                    let f = vec![enc(&d), own, text, esc.into_bytes()];
+                    (d, f)
+                })
+                .collect(),
+        );
+        let m = forms.len();
+        sp.push(Space::new("operands in four forms (model bytes, jsonb's own encoding of the text, text, escaped text): all pairs x all form pairs", m as u64, move |i, acc| {
+            const FN: [&str; 4] = ["model-bytes", "own-encoder-bytes", "text", "escaped-text"];
+            let (a, fa) = &forms[i as usize];
+            for (b, fb) in forms.iter() {
+                let ei = ops::array_intersection(a, b);
+                let ee = ops::array_except(a, b);
+                let eo = ops::array_overlap(a, b);
+                for (x, xa) in fa.iter().enumerate() {
+                    for (y, yb) in fb.iter().enumerate() {
+                        if x == 0 && y == 0 {
+                            continue;
+                        }
+                        acc.nontrivial += 1;
+                        let ctx = || json!({"a": format!("{:?}", a), "b": format!("{:?}", b), "a_form": FN[x], "b_form": FN[y], "a_bytes": String::from_utf8_lossy(xa), "b_bytes": String::from_utf8_lossy(yb)});
+                        call("forms:intersection", |buf| jsonb::array_intersection(xa, yb, buf), &ei, acc, &ctx);
+                        call("forms:except", |buf| jsonb::array_except(xa, yb, buf), &ee, acc, &ctx);
+                        acc.eval();
+                        match guard(|| jsonb::array_overlap(xa, yb)) {
+                            Ok(Ok(o)) if o == eo => {}
+                            other => acc.vio("forms:overlap:differs-from-multiset-model", || json!({"ctx": ctx(), "expected": eo, "observed": format!("{:?}", other)})),
+                        }
+                    }
+                }
+            }
+            for (x, xa) in fa.iter().enumerate().skip(1) {
+                let ctx = || json!({"a": format!("{:?}", a), "a_form": FN[x]});
+                call("forms:distinct", |buf| jsonb::array_distinct(xa, buf), &ops::array_distinct(a), acc, &ctx);
+            }
+        }));
+    }
     // size sweep: every N up to the limit, list with many duplicates against three related lists
     let sz = Arc::new(crate::checks::scale::sizes_heavy(tier));
     sp.push(Space::new("size sweep: N-element lists with duplicates", sz.len() as u64, move |i, acc| {
@@ -185,7 +243,7 @@ pub fn spaces(tier: Tier) -> Vec<Space<'static>> {
 
 pub fn meta(tier: Tier) -> (String, serde_json::Value, Vec<String>) {
     (
-        "every list of bounded length over an 8-element alphabet built for identity collisions (1 unsigned / 1 signed / 1.0 / \"a\" / null / [1] / [1.0] / {\"a\":1}), plus scalar and object inputs; every ordered pair for the binary functions; model = multiset semantics with identity = same value in same number encoding; laws re-checked on the implementation's own outputs. Non-trivial = first list has >=2 elements and second >=1.".into(),
+        "every list of bounded length over a 13-element alphabet built for identity collisions (1 unsigned / 1 signed / 1.0 / \"a\" / null / [1] / [1.0] / {\"a\":1}, strings whose payload bytes equal a number's or an object's, payloads over 255 bytes), plus scalar and object inputs; every ordered pair for the binary functions; a second universe (15 elements incl. 0, -1, 0.0, strings from planes 1, 2 and 16, lists <= 2) with every operand in four forms - model bytes, jsonb's own encoding of the text, JSON text, text with \\u escapes - over all pairs and all form pairs; a size sweep; model = multiset semantics with identity = same value in same number encoding; laws re-checked on the implementation's own outputs. Non-trivial = first list has >=2 elements and second >=1.".into(),
         json!({"max_list_len": if tier.thorough() {4} else {3}, "alphabet": 8, "pairs": "all ordered pairs"}),
         vec![],
     )
